@@ -6,7 +6,7 @@ META = {
     "technique": "Coq proof: counter invariants at the real word widths by induction over the block sequence / over update histories, from any counter value (BLAKE two-word bit counter with manual carry, Groestl u64 block counter and big-endian count field, JH usize byte counter and 64-bit bit length, Skein tweak position), and conformance of the digest continued from such a state; differential correspondence impl = model = spec on states entered through hook H2 next to every boundary and on states reached by really streaming up to the first boundaries",
     "level_text": "Machine-checked (Props/C17.v + C17_blake.v, C17_groestl.v, C17_jh.v, C17_skein.v, all closed under the global context): C17_blake_t_exact / C17_blake_increase_count_exact (t = bits compressed for every message below 2^64 resp. 2^128 bits, the carry into t.1, no overflow check fires below the limit), C17_blake256_carry_at_2_32 / C17_blake512_carry_at_2_64 (single increase_count steps, helper level), C17_blake{224,256,384,512}_from_state_eq_spec (Proofs/BlakeFromState.v: from ANY chaining value, whole-block counter, buffered prefix and tail the model's digest is Spec.Blake.hash_from - what the hook cases are compared with) and C17_blake*_from_state_no_overflow; C17_groestl_count_exact / C17_groestl_final_count_exact / C17_groestl_count_across_byte_boundaries (counter and all eight count bytes exact below 2^64 blocks), C17_groestl_no_overflow_below_limit, C17_groestl{224,256,384,512}_from_state_eq_spec; C17_jh_len_exact / C17_jh_blocks_exact / C17_jh_digest_conforms (every update history below 2^61 bytes), C17_jh_from_state_eq_spec (Proofs/JHFromState.v: from any 128-byte chaining value and consistent (datalen, buffered) state, any update sequence below 2^61 bytes in total, both profiles: no panic, exact length field, digest = Spec.JH.jh_tail); C17_skein_pos_exact / C17_skein_from_state_eq_spec / C17_skein_beyond_2_64. The digest theorems of C04-C07 are stated with exactly these bounds. Implementation = model = spec is checked on generated cases.",
     "level_note": "Trusted: Coq kernel+VM; spec transcriptions (KAT-anchored); hand-written models tied to the code on generated cases; hook H2 (verif_get_state / verif_set_state: states beyond the first boundary are ENTERED, not reached by hashing; the chaining value of a really streamed state is the implementation's own); harness. No axioms.",
-    "rule": "cases = entered states (variant, chaining value, counter, buffered bytes, tail, optional split of the tail over two update calls) with the counter at small offsets around every boundary of the family: BLAKE t at the low-word carry (high word 0 / random / all-ones-but-one), just below the format limit, random block counts; Groestl block_counter at 2^k-d (k = 8,16,24,32,40,48,56,64) x 8 buffered/tail shapes; JH datalen around 0, 64, 2^13, 2^21, 2^29 (= 2^32 bits), 2^32, 2^56, 2^61 and beyond; Skein t.0 at 2^32-j*nb, 2^32, 2^40-nb, 2^63-nb, 2^64-j*nb; plus real_stream cases: 2^29-k bytes (BLAKE-224/256, JH), 2^8/2^16/2^24 blocks minus a few bytes (Groestl), 2^32-k bytes (Skein, release profile) are really streamed in update calls of varying sizes, the counter read back through the hook must equal the proved closed form (direct failure otherwise) and the state becomes an entered state whose tail crosses the boundary; debug and release profile; implementation outcome (ok/panic), counters after the updates where the harness reports them, and the digest are compared with model and spec inside coqc; distinct = distinct case; all cases non-trivial (each runs at least one compression and the padding); ADDED: every real_stream state of BLAKE, Groestl and Skein is crossed TWICE: by a fresh object the read-back state is entered into (as before) and by the streamed object itself continued with the same tail (stream real_stream_same_object, as JH always did): both digests go to Coq and must be equal (direct failure otherwise: a private field the hook does not expose would make them differ); release profile only: ONE update call of 2^29+64 bytes (512 MiB buffer, byte i = i mod 251) into BLAKE-224/256 and JH (--big-update 1): the state read back must equal the state a clone of the chunked real_stream object reaches on the same bytes, the counter the closed form (BLAKE t = 2^32+512 bits, JH datalen = 2^29+64), and the digest continued from it is compared with model and spec; which variant is streamed first rotates with the seed (BLAKE-224/256, the four JH variants; Skein-256/512/1024 in the thorough tier, Skein-512 in the quick tier); the h_skein hook stream now also carries ONE plain digest of an 8 KiB message given in one update call (state size rotating with the seed; stream one_long_update, see C05); the length of every digest is checked in the harness; h_blake runs every implementation call under catch_unwind; entered states beyond the property's domain (Skein position >= 2^64, JH >= 2^61 bytes, Groestl count >= 2^64 blocks) are tagged domain = beyond in the case JSON: their behaviour as written stays pinned by equality, the tag lets a later repair there be told from a violation",
+    "rule": "cases = entered states (variant, chaining value, counter, buffered bytes, tail, optional split of the tail over two update calls) with the counter at small offsets around every boundary of the family: BLAKE t at the low-word carry (high word 0 / random / all-ones-but-one), just below the format limit, random block counts; Groestl block_counter at 2^k-d (k = 8,16,24,32,40,48,56,64) x 8 buffered/tail shapes; JH datalen around 0, 64, 2^13, 2^21, 2^29 (= 2^32 bits), 2^32, 2^56, 2^61 and beyond; Skein t.0 at 2^32-j*nb, 2^32, 2^40-nb, 2^63-nb, 2^64-j*nb; plus real_stream cases: 2^29-k bytes (BLAKE-224/256, JH), 2^8/2^16/2^24 blocks minus a few bytes (Groestl), 2^32-k bytes (Skein, release profile) are really streamed in update calls of varying sizes, the counter read back through the hook must equal the proved closed form (direct failure otherwise) and the state becomes an entered state whose tail crosses the boundary; debug and release profile; implementation outcome (ok/panic), counters after the updates where the harness reports them, and the digest are compared with model and spec inside coqc; distinct = distinct case; all cases non-trivial (each runs at least one compression and the padding); ADDED: every real_stream state of BLAKE, Groestl and Skein is crossed TWICE: by a fresh object the read-back state is entered into (as before) and by the streamed object itself continued with the same tail (stream real_stream_same_object, as JH always did): both digests go to Coq and must be equal (direct failure otherwise: a private field the hook does not expose would make them differ); release profile only: ONE update call of 2^29+64 bytes (512 MiB buffer, byte i = i mod 251) into BLAKE-224/256 and JH (--big-update 1; thorough tier, JH: 2^32+100 bytes, a slice length beyond 32 bits): the state read back must equal the state a clone of the chunked real_stream object reaches on the same bytes, the counter the closed form (BLAKE t = 2^32+512 bits, JH datalen = 2^29+64), and the digest continued from it is compared with model and spec; which variant is streamed first rotates with the seed (BLAKE-224/256, the four JH variants; Skein-256/512/1024 in the thorough tier, Skein-512 in the quick tier); the h_skein hook stream now also carries ONE plain digest of an 8 KiB message given in one update call (state size rotating with the seed; stream one_long_update, see C05); the length of every digest is checked in the harness; h_blake runs every implementation call under catch_unwind; entered states beyond the property's domain (Skein position >= 2^64, JH >= 2^61 bytes, Groestl count >= 2^64 blocks) are tagged domain = beyond in the case JSON: their behaviour as written stays pinned by equality, the tag lets a later repair there be told from a violation",
     "assumptions": ["little-endian x86-64 host; usize is 64 bits",
                     "lengths up to the limits as implemented: 2^64-1 bits BLAKE-224/256, 2^128-1 bits BLAKE-384/512, 2^64 blocks Groestl, 2^61 bytes JH, 2^64 bytes Skein",
                     "states beyond the first 2^32-bit boundary are entered through hook H2 rather than reached by hashing"],
@@ -31,7 +31,9 @@ def run(ctx):
         plan.append(("h_groestl", "groestl", profile, ["--streams", "hook", "--real", 3 if q else 6, "--runner", "run_c07"],
                      "groestl/%s/hook" % profile, "explain_c07",
                      "C17_groestl_count_exact / C17_groestl_final_count_exact / C17_groestl*_from_state_eq_spec"))
-        plan.append(("h_jh", "digest", profile, ["--streams", "hook", "--real", 1 if q else 4, "--runner", "run_c06"] + big,
+        # thorough tier, JH: the single call is 2^32 + 100 bytes (a slice length that does not fit in 32 bits; 4 GiB buffer, ~50 s)
+        big_jh = (["--big-update", 1 if q else 2] if profile == "release" else [])
+        plan.append(("h_jh", "digest", profile, ["--streams", "hook", "--real", 1 if q else 4, "--runner", "run_c06"] + big_jh,
                      "jh/%s/hook" % profile, "explain_c06",
                      "C17_jh_len_exact / C17_jh_digest_conforms"))
         real_sk = (1 if profile == "release" else 0) if q else 2
